@@ -1,3 +1,5 @@
+use std::collections::HashMap;
+
 use super::ValidationRule;
 use crate::ast::{visit_document, OperationVisitor, OperationVisitorContext};
 use crate::static_graphql::query::*;
@@ -10,18 +12,49 @@ use crate::validation::utils::{ValidationError, ValidationErrorContext};
 ///
 /// See https://spec.graphql.org/draft/#sec-Fragments-Must-Be-Used
 pub struct NoUnusedFragments<'a> {
-    fragments_in_use: Vec<&'a str>,
+    /// Name of the fragment definition being visited (None inside an operation).
+    current_fragment: Option<&'a str>,
+    /// Fragments spread (at any depth) inside operations.
+    spreads_in_operations: Vec<&'a str>,
+    /// Fragments spread (at any depth) inside each fragment definition.
+    spreads_in_fragments: HashMap<&'a str, Vec<&'a str>>,
 }
 
 impl<'a> OperationVisitor<'a, ValidationErrorContext> for NoUnusedFragments<'a> {
+    fn enter_operation_definition(
+        &mut self,
+        _: &mut OperationVisitorContext,
+        _: &mut ValidationErrorContext,
+        _: &'a OperationDefinition,
+    ) {
+        self.current_fragment = None;
+    }
+
+    fn enter_fragment_definition(
+        &mut self,
+        _: &mut OperationVisitorContext,
+        _: &mut ValidationErrorContext,
+        fragment_definition: &'a FragmentDefinition,
+    ) {
+        self.current_fragment = Some(fragment_definition.name.as_str());
+    }
+
     fn enter_fragment_spread(
         &mut self,
         _: &mut OperationVisitorContext,
         _: &mut ValidationErrorContext,
         fragment_spread: &'a FragmentSpread,
     ) {
-        self.fragments_in_use
-            .push(fragment_spread.fragment_name.as_str());
+        let spread_name = fragment_spread.fragment_name.as_str();
+
+        match self.current_fragment {
+            Some(fragment_name) => self
+                .spreads_in_fragments
+                .entry(fragment_name)
+                .or_default()
+                .push(spread_name),
+            None => self.spreads_in_operations.push(spread_name),
+        }
     }
 
     fn leave_document(
@@ -30,11 +63,27 @@ impl<'a> OperationVisitor<'a, ValidationErrorContext> for NoUnusedFragments<'a> 
         user_context: &mut ValidationErrorContext,
         _document: &Document,
     ) {
+        // A fragment is used if it is reachable from some operation through fragment spreads.
+        let mut fragments_in_use: Vec<&str> = Vec::new();
+        let mut pending: Vec<&str> = self.spreads_in_operations.clone();
+
+        while let Some(fragment_name) = pending.pop() {
+            if fragments_in_use.contains(&fragment_name) {
+                continue;
+            }
+
+            fragments_in_use.push(fragment_name);
+
+            if let Some(nested_spreads) = self.spreads_in_fragments.get(fragment_name) {
+                pending.extend(nested_spreads.iter().copied());
+            }
+        }
+
         visitor_context
             .known_fragments
             .iter()
             .filter_map(|(fragment_name, _fragment)| {
-                if !self.fragments_in_use.contains(fragment_name) {
+                if !fragments_in_use.contains(fragment_name) {
                     Some(fragment_name)
                 } else {
                     None
@@ -59,7 +108,9 @@ impl<'a> Default for NoUnusedFragments<'a> {
 impl<'a> NoUnusedFragments<'a> {
     pub fn new() -> Self {
         NoUnusedFragments {
-            fragments_in_use: Vec::new(),
+            current_fragment: None,
+            spreads_in_operations: Vec::new(),
+            spreads_in_fragments: HashMap::new(),
         }
     }
 }
